@@ -170,6 +170,37 @@ func VH_mstr_DigitRuns() {
 	vAssert(vImplies(vx == vy, got == 0), "CompareNatural: equal values compare equal")
 }
 
+// VH_mstr_LongDigitRuns: digit runs of 16 to 19 digits (still inside the int
+// range, but beyond what a float64 holds exactly): two runs that share a long
+// prefix and differ in their last digits are ordered by value. The last digit
+// of each run is a forked choice (concrete on every path).
+func VH_mstr_LongDigitRuns() {
+	prefixes := []string{"900719925474099", "92233720368547758", "100000000000000000"}
+	p := prefixes[vCase("prefix")]
+	dx, dy := vChoice("dx", 10), vChoice("dy", 10)
+	if p == "92233720368547758" && (dx > 0 || dy > 0) {
+		// 9223372036854775807 is the largest int: keep both runs at or below ...7580
+		vAssume(false)
+	}
+	x := p + string([]byte{byte('0' + dx)})
+	y := p + string([]byte{byte('0' + dy)})
+	lead := ""
+	if vChoice("leading-zeros", 2) == 1 {
+		lead = "00"
+	}
+	got := CompareNatural("v"+lead+x+"-a", "v"+y+"-b")
+	vCover("long-digit-runs")
+	switch {
+	case dx < dy:
+		vAssert(got == -1, "CompareNatural: long digit runs ordered by numeric value (<)")
+	case dx > dy:
+		vAssert(got == 1, "CompareNatural: long digit runs ordered by numeric value (>)")
+	default:
+		vAssert(got == -1, "CompareNatural: equal long runs fall through to the rest of the string")
+	}
+	vAssert(CompareNatural("v"+lead+x, "v"+x) == 0, "CompareNatural: 0 for long runs equal up to leading zeros")
+}
+
 func VT_mstr_tables() {
 	for _, s := range []string{"", "abc", "café", "日本語", "a\U0001F600b", "\x80\x80", "ab\xc3"} {
 		var outs []string
